@@ -12,6 +12,16 @@ SPECS = [
          inputs=[("serializable", "bool"), ("roundtrippable", "bool")],
          subst={"is_json_roundtrippable(data_item)": "roundtrippable", "is_json_serializable(data_item)": "serializable"}),
     # _same_value_and_type: the type test comes first and is an identity test on the types
-    dict(name="sl_same_scalar", qual="_same_value_and_type", start=r"^return bool\(", end=None, kind="expr", ret="bool",
-         inputs=[("eq", "bool")], subst={"original == restored": "eq"}),
+    # the scalar case is the one return that is neither `return False` nor a `len(...)` conjunction; == and != are both inputs,
+    # so `!=` and `return True` mutants translate and break the interface lemma instead of falling back
+    dict(name="sl_same_scalar", qual="_same_value_and_type", start=r"^return (?!False\b|len\()", end=None, kind="expr", ret="bool",
+         inputs=[("eq", "bool"), ("ne", "bool")], subst={"original == restored": "eq", "original != restored": "ne"}),
+    # the type test that comes first
+    dict(name="sl_type_differs", qual="_same_value_and_type", start=r"^if type\(", end=None, kind="test",
+         inputs=[("same_type", "bool"), ("other_type", "bool")],
+         subst={"type(original) is not type(restored)": "other_type", "type(original) is type(restored)": "same_type"}),
+    # a dictionary key must be a plain str (13e02e6)
+    dict(name="sl_key_plain", qual="_same_value_and_type", start=r"^return len\(.*type\(key\)", end=None, kind="subexpr",
+         pick=r"type\(key\) is(?: not)? str", ret="bool", inputs=[("is_str", "bool"), ("not_str", "bool")],
+         subst={"type(key) is str": "is_str", "type(key) is not str": "not_str"}),
 ]
